@@ -30,6 +30,8 @@ def monitor_rhs1d(args, kwargs, result, tok):
     ctx = CTX
     disc = args[0]
     _count["rhs"] += 1
+    if not probes.take("rhs"):
+        return
     n = disc.nelem
     vol = disc.mesh.vol()
     bcc = _bcclass(disc.bcL["type"], disc.bcR["type"])
